@@ -99,7 +99,7 @@ EXPORT errno_t _strfirstdiff_s_chk(const char *dest, rsize_t dmax,
     /* hold reference point */
     rp = dest;
 
-    while (*dest && *src && dmax) {
+    while (dmax && *dest && *src) {
 
         if (*dest != *src) {
             *resultp = dest - rp;
